@@ -5,6 +5,8 @@ package c10
 import (
 	"fmt"
 	"strings"
+	"sync"
+	"sync/atomic"
 	"time"
 
 	"github.com/ohler55/slip"
@@ -35,6 +37,28 @@ func defineVtr() {
 		&slip.UserPkg)
 }
 
+// slowObj is an argument whose Hierarchy() takes time while slowOn is set: it widens every window
+// between the hierarchy walk of Aux.Call and the use of its result, so that a concurrent defmethod
+// lands inside it.
+type slowObj struct{}
+
+var slowOn atomic.Bool
+
+func (slowObj) String() string        { return "#<vslow>" }
+func (slowObj) Append(b []byte) []byte { return append(b, "#<vslow>"...) }
+func (slowObj) Simplify() any          { return "#<vslow>" }
+func (o slowObj) Equal(other slip.Object) bool {
+	_, ok := other.(slowObj)
+	return ok
+}
+func (slowObj) Hierarchy() []slip.Symbol {
+	if slowOn.Load() {
+		time.Sleep(300 * time.Microsecond)
+	}
+	return []slip.Symbol{"vslow", "integer", "rational", "real", "number", "t"}
+}
+func (o slowObj) Eval(s *slip.Scope, depth int) slip.Object { return o }
+
 type argObj struct {
 	expr string
 	cls  string
@@ -49,6 +73,7 @@ type opRec struct {
 	Next  bool     `json:"next,omitempty"`
 	Args  []string `json:"args,omitempty"` // classes of the call arguments
 	Lisp  string   `json:"lisp"`
+	Par   []opRec  `json:"concurrent_defs,omitempty"` // kind "par": defmethods issued while another routine keeps calling
 	Trace []int64  `json:"trace,omitempty"`
 	Res   string   `json:"result,omitempty"`
 }
@@ -65,7 +90,8 @@ func Run(ctx *common.Ctx) {
 		panic("C10 setup: " + o.Err + " " + o.Msg)
 	}
 	var pool []argObj
-	for _, e := range []string{"1", "1/2", "1.5", `"s"`, "*vi2*", "*vi4*", "nil", "100000000000000000000"} {
+	scope.Let(slip.Symbol("*vslow*"), slowObj{})
+	for _, e := range []string{"1", "1/2", "1.5", `"s"`, "*vi2*", "*vi4*", "nil", "100000000000000000000", "*vslow*"} {
 		v := common.EvalIn(scope, e)
 		if v.Err != "" {
 			panic("C10 pool: " + e + ": " + v.Msg)
@@ -92,7 +118,7 @@ func Run(ctx *common.Ctx) {
 	}
 	ct := common.GList(ctItems)
 	specs := []string{"t", "number", "real", "rational", "integer", "fixnum", "ratio", "float", "double-float",
-		"string", "vc1", "vc2", "vc3", "vc4", "bignum"}
+		"string", "vc1", "vc2", "vc3", "vc4", "bignum", "vslow"}
 
 	ncases := 400
 	if ctx.Thorough() {
@@ -111,28 +137,68 @@ func Run(ctx *common.Ctx) {
 		}
 		var gops, gobs []string
 		timedOut := false
+		defLisp := func(r *opRec) {
+			var ll []string
+			for j, c := range r.Key {
+				ll = append(ll, fmt.Sprintf("(%s %s)", params[j], c))
+			}
+			var body string
+			cn := fmt.Sprintf("(call-next-method %s)", strings.Join(params, " "))
+			switch {
+			case r.Qual == ":around" && r.Next:
+				body = fmt.Sprintf("(vtr %d) (let ((r %s)) (vtr %d) r)", r.ID, cn, -r.ID)
+			case r.Qual == ":around":
+				body = fmt.Sprintf("(vtr %d) (vtr %d) %d", r.ID, -r.ID, r.ID)
+			default:
+				body = fmt.Sprintf("(vtr %d) %d", r.ID, r.ID)
+			}
+			r.Lisp = fmt.Sprintf("(defmethod %s %s (%s) %s)", g, r.Qual, strings.Join(ll, " "), body)
+			gops = append(gops, fmt.Sprintf("OpDef %s %s {| b_id := %d; b_next := %s |}", gq[r.Qual],
+				common.GStrs(r.Key), r.ID, common.GBool(r.Next)))
+			gobs = append(gobs, "None")
+		}
 		for i := range recs {
 			r := &recs[i]
 			switch r.Kind {
+			case "par":
+				// routine B issues the definitions in order; routine A keeps calling with the slow
+				// argument until B is done. By the cache-transparency theorem the outputs of later
+				// calls depend on the method table only, so A's calls need not appear in the model's
+				// history: the model sees B's definitions as sequential operations.
+				for j := range r.Par {
+					defLisp(&r.Par[j])
+				}
+				var wg sync.WaitGroup
+				var done atomic.Bool
+				slowOn.Store(true)
+				wg.Add(2)
+				callSrc := "(" + g + " *vslow*" + strings.Repeat(" 1", n-1) + ")"
+				sa, sb := scope.NewScope(), scope.NewScope()
+				go func() {
+					defer wg.Done()
+					saved := trace
+					for k := 0; k < 400 && !done.Load(); k++ {
+						_ = common.EvalIn(sa, callSrc)
+					}
+					_ = common.EvalIn(sa, callSrc)
+					trace = saved
+				}()
+				go func() {
+					defer wg.Done()
+					for j := range r.Par {
+						time.Sleep(time.Duration(200+ctx.Rng.Intn(900)) * time.Microsecond)
+						if o := common.EvalIn(sb, r.Par[j].Lisp); o.Err != "" {
+							r.Par[j].Res = "!" + o.Err + ": " + o.Msg
+						}
+					}
+					done.Store(true)
+				}()
+				wg.Wait()
+				slowOn.Store(false)
+				r.Lisp = "concurrently: routine A repeats " + callSrc + " while routine B evaluates the concurrent_defs"
+				continue
 			case "def":
-				var ll []string
-				for j, c := range r.Key {
-					ll = append(ll, fmt.Sprintf("(%s %s)", params[j], c))
-				}
-				var body string
-				cn := fmt.Sprintf("(call-next-method %s)", strings.Join(params, " "))
-				switch {
-				case r.Qual == ":around" && r.Next:
-					body = fmt.Sprintf("(vtr %d) (let ((r %s)) (vtr %d) r)", r.ID, cn, -r.ID)
-				case r.Qual == ":around":
-					body = fmt.Sprintf("(vtr %d) (vtr %d) %d", r.ID, -r.ID, r.ID)
-				default:
-					body = fmt.Sprintf("(vtr %d) %d", r.ID, r.ID)
-				}
-				r.Lisp = fmt.Sprintf("(defmethod %s %s (%s) %s)", g, r.Qual, strings.Join(ll, " "), body)
-				gops = append(gops, fmt.Sprintf("OpDef %s %s {| b_id := %d; b_next := %s |}", gq[r.Qual],
-					common.GStrs(r.Key), r.ID, common.GBool(r.Next)))
-				gobs = append(gobs, "None")
+				defLisp(r)
 			case "remove":
 				ql := "nil"
 				if r.Qual != "" {
@@ -240,6 +306,15 @@ func Run(ctx *common.Ctx) {
 		var recs []opRec
 		var defined [][2]string // (qual, key joined)
 		id := 0
+		concurrent := ctx.Rng.Chance(30)
+		if concurrent {
+			// the first focus tuple starts with the slow object (last pool entry) and fixnums
+			focus[0][0] = pool[len(pool)-1]
+			for i := 1; i < n; i++ {
+				focus[0][i] = pool[0]
+			}
+			ctx.Hist("history:with-concurrent-segment")
+		}
 		// most histories start with a catch-all primary so that calls are inside the guard
 		if ctx.Rng.Chance(70) {
 			id++
@@ -252,6 +327,29 @@ func Run(ctx *common.Ctx) {
 		}
 		for len(recs) < L {
 			p := ctx.Rng.Intn(100)
+			if concurrent && len(recs) >= 2 && ctx.Rng.Chance(25) {
+				var par []opRec
+				for k := 0; k < 1+ctx.Rng.Intn(3); k++ {
+					id++
+					key := make([]string, n)
+					key[0] = common.Pick(ctx.Rng, focus[0][0].hier)
+					for i := 1; i < n; i++ {
+						key[i] = common.Pick(ctx.Rng, []string{"t", "fixnum", "integer"})
+					}
+					q := ""
+					if ctx.Rng.Chance(30) {
+						q = common.Pick(ctx.Rng, []string{":before", ":after"})
+					}
+					par = append(par, opRec{Kind: "def", Qual: q, Key: key, ID: id})
+					defined = append(defined, [2]string{q, strings.Join(key, "|")})
+				}
+				args := make([]string, n)
+				for i := range args {
+					args[i] = focus[0][i].cls
+				}
+				recs = append(recs, opRec{Kind: "par", Par: par}, opRec{Kind: "call", Args: args})
+				continue
+			}
 			switch {
 			case p < 50:
 				id++
